@@ -149,7 +149,9 @@ func (p *parent) thorough() {
 			"-fuzztime", fmt.Sprintf("%dx", n), "-fuzzminimizetime", "3000x", "-test.fuzzcachedir="+cache, ".")
 		cmd := exec.Command("go", args...)
 		cmd.Dir = dir
-		cmd.Env = append(goEnv(), "VERIF_C14_FUZZ_SEED="+strconv.FormatInt(r.Seed, 10))
+		// fuzz workers do not start plugin processes: the plugin route of the
+		// key-aware family runs in the monitor's own children
+		cmd.Env = append(goEnv(), "VERIF_C14_FUZZ_SEED="+strconv.FormatInt(r.Seed, 10), "VERIF_C14_NOPLUGIN=1")
 		t0 := time.Now()
 		outB, err := runWithBackstop(cmd, 40*time.Minute)
 		out := string(outB)
